@@ -212,7 +212,7 @@ class QConstant:
         # give us a constant, even though base Jaqal does/did not
         # allow this.
         if isinstance(value, QConstant):
-            value = QConstant.value
+            value = value.value
         if not isinstance(value, (int, float)):
             raise JaqalError(f"Invalid let value {value}")
         return value
@@ -586,7 +586,7 @@ class Namer:
         if let.name is not None:
             return let.name
         name, self.next_let = self._choose_name(
-            self.let_template, self.next_let, self.let_names
+            self.let_template, self.next_let, self.let_names + self.register_names
         )
         return name
 
@@ -595,7 +595,7 @@ class Namer:
         if register.name is not None:
             return register.name
         name, self.next_register = self._choose_name(
-            self.register_template, self.next_register, self.register_names
+            self.register_template, self.next_register, self.let_names + self.register_names
         )
         return name
 
